@@ -249,6 +249,10 @@ func Quiesce() { time.Sleep(30 * time.Millisecond) }
 // sends and mutex acquisitions (natively: no effect, the Go scheduler decides).
 func Preemptions(n int) {}
 
+// PreemptPoint is a point where the engine's scheduler may switch to another runnable goroutine at
+// the cost of one unit of the pre-emption budget (natively: a Gosched).
+func PreemptPoint() { runtime.Gosched() }
+
 // Yield is a voluntary scheduling point.
 func Yield() { runtime.Gosched() }
 
